@@ -8,6 +8,7 @@ server messages and `irc.reset()` calls — the quantification over *all* histor
 hold from every state whose fast queue is empty, in particular from every reachable one.
 -/
 import LimnoriaModel.C08.Trace
+import LimnoriaModel.C08.Progress
 namespace C08
 open Py
 open Gen.Conn (Fsm)
@@ -353,5 +354,90 @@ theorem feedLines_stops (cfg : Cfg) (m : Msg) (ms : List Msg) (s : St)
 theorem flush_wire (s : St) (h : s.drv.connected = true) :
     (flush s).wire = s.wire ++ (s.fastq ++ s.slowq).map (fun o => (s.drv.sock, o)) ∧ (flush s).fastq = [] ∧ (flush s).slowq = [] := by
   simp [flush, h]
+
+/-! ### progress: against a conformant server the bot never is the one that stalls
+
+`PReach cfg base v3 s v` (Progress.lean): the joint histories of the bot and a protocol-conformant server
+(`SrvMove`: final/continued CAP LS while it is owed; one ACK or NAK with the same list for the oldest
+unanswered CAP REQ; `AUTHENTICATE +`/challenge, 903, 904–907, 908 while a SASL answer is owed; 432/433/437
+before the welcome; 001…005, 375, 376 / 422 in order once the client ended the negotiation — or from the
+start when the server has no capability negotiation; PING and unhandled notices at any time).
+`Owes v`: the server still has such a move to make.  Stub-driver semantics: `driver.reconnect()` ends the
+connection epoch (`v.aborted`). -/
+
+/-- In every jointly reachable situation the bot is connected (end of MOTD seen, `afterConnect`), or it
+aborted deliberately (`driver.reconnect`), or the conformant server still owes it an answer: the bot
+never waits for something a conformant server will not send. -/
+theorem progress (cfg : Cfg) (hd : cfg.realDriver = false) (base : St) (v3 : Bool) (s : St) (v : View)
+    (r : PReach cfg base v3 s v) : s.afterConnect = true ∨ v.aborted = true ∨ Owes v := by
+  rcases inv_preach hd r with h | h | ⟨_, hp⟩
+  · exact .inr (.inl h)
+  · exact .inl h
+  · exact .inr (.inr (owes_of_phase hp))
+
+/-- Spelled out: when nothing is owed any more, the registration is complete or was abandoned. -/
+theorem no_stuck_state (cfg : Cfg) (hd : cfg.realDriver = false) (base : St) (v3 : Bool) (s : St) (v : View)
+    (r : PReach cfg base v3 s v) (hls : v.v3 = true → v.lsOwed = false ∧ v.reqs = [] ∧ v.auth = .none)
+    (hw : canWelcome v = true → 7 ≤ v.stage) : s.afterConnect = true ∨ v.aborted = true := by
+  rcases progress cfg hd base v3 s v r with h | h | h
+  · exact .inl h
+  · exact .inr h
+  · exfalso
+    rcases h with ⟨h3, h⟩ | ⟨hc, hs⟩
+    · obtain ⟨a, b, c⟩ := hls h3
+      rcases h with h | h | h
+      · rw [a] at h; cases h
+      · exact h b
+      · exact h c
+    · have := hw hc; omega
+
+/-! non-vacuity of `progress`: a complete conformant registration with SASL PLAIN, step by step -/
+
+def jn : Str := []
+def jBot : Str := ['b','o','t']
+def jS0 := start exCfg {}
+def jV0 : View := seeStep { v3 := true } jS0
+def jS1 := step exCfg jS0.st ⟨sCAP, [exStar, sLS, sSasl], jn⟩
+def jV1 : View := seeStep { jV0 with lsOwed := false } jS1
+def jS2 := step exCfg jS1.st ⟨sCAP, [exStar, sACK, sSasl], jn⟩
+def jV2 : View := seeStep { jV1 with reqs := [] } jS2
+def jS3 := step exCfg jS2.st ⟨sAUTHENTICATE, [sPlus], jn⟩
+def jV3 : View := seeStep { jV2 with auth := .none } jS3
+def jS4 := step exCfg jS3.st ⟨num '9' '0' '3', [], jn⟩
+def jV4 : View := seeStep { jV3 with auth := .none } jS4
+def jS5 := step exCfg jS4.st ⟨welcomeNumeric 1, jBot :: [], jn⟩
+def jV5 : View := seeStep { jV4 with stage := 1 } jS5
+def jS6 := step exCfg jS5.st ⟨welcomeNumeric 2, jBot :: [], jn⟩
+def jV6 : View := seeStep { jV5 with stage := 2 } jS6
+def jS7 := step exCfg jS6.st ⟨welcomeNumeric 3, jBot :: [], jn⟩
+def jV7 : View := seeStep { jV6 with stage := 3 } jS7
+def jS8 := step exCfg jS7.st ⟨welcomeNumeric 4, jBot :: [], jn⟩
+def jV8 : View := seeStep { jV7 with stage := 4 } jS8
+def jS9 := step exCfg jS8.st ⟨welcomeNumeric 5, jBot :: [], jn⟩
+def jV9 : View := seeStep { jV8 with stage := 5 } jS9
+def jS10 := step exCfg jS9.st ⟨num '3' '7' '5', jBot :: [], jn⟩
+def jV10 : View := seeStep { jV9 with stage := 6 } jS10
+def jS11 := step exCfg jS10.st ⟨num '3' '7' '6', jBot :: [], jn⟩
+def jV11 : View := seeStep { jV10 with stage := 7 } jS11
+
+theorem jR4 : PReach exCfg {} true jS4.st jV4 :=
+  .step (.step (.step (.step .start (by decide) (.lsFinal jV0 exStar sSasl jn (by decide) (by decide)))
+    (by decide) (.ack jV1 exStar sSasl jn [sSasl] [] (by decide) (by decide) (by decide)))
+    (by decide) (.authContinue jV2 sPlus jn (by decide) (by decide) (.inl rfl)))
+    (by decide) (.authOk jV3 [] jn (by decide) (by decide))
+
+theorem jR11 : PReach exCfg {} true jS11.st jV11 :=
+  .step (.step (.step (.step (.step (.step (.step jR4
+    (by decide) (.welcome jV4 1 jBot [] jn (by decide) (by decide) (by decide)))
+    (by decide) (.welcome jV5 2 jBot [] jn (by decide) (by decide) (by decide)))
+    (by decide) (.welcome jV6 3 jBot [] jn (by decide) (by decide) (by decide)))
+    (by decide) (.welcome jV7 4 jBot [] jn (by decide) (by decide) (by decide)))
+    (by decide) (.welcome jV8 5 jBot [] jn (by decide) (by decide) (by decide)))
+    (by decide) (.motdStart jV9 jBot [] jn (by decide) (by decide)))
+    (by decide) (.motdEnd jV10 jBot [] jn (by decide) (by decide))
+
+/-- the history is a joint history of the bot and a conformant server, it ends connected, and on the
+way the server owed something at every step -/
+example : jS11.st.afterConnect = true ∧ jV11.aborted = false ∧ jS4.st.fsm = .INIT_WAITING_MOTD ∧ jV2.auth = .mech := by decide
 
 end C08
